@@ -357,7 +357,6 @@ def eigen_task(datatype, method, P_, NSIG, nfft_parity=None):
             N = dom.input_int("N")
             n = dom.input_int("NFFT")
             I.assume(V.s_cmp(">=", N, 2 * P_))
-            I.assume(V.s_cmp("<=", N - P_, 100))       # the NP cap is C17's business
             I.assume(V.s_cmp(">=", n, P_ + 1))
             x = dom.input_array("x", N, "complex" if datatype == "complex" else "float")
             r = I.call_qual("spectrum.eigenfre.eigen", x, P_, NSIG, method, None, n)
@@ -473,7 +472,6 @@ def grid_task(fname, datatype, extra=None):
             elif fname == "eigen":
                 P_, NSIG, method = extra["P"], extra["NSIG"], extra["method"]
                 I.assume(V.s_cmp(">=", N, 2 * P_))
-                I.assume(V.s_cmp("<=", N - P_, 100))
                 I.assume(V.s_cmp(">=", n1, P_ + 1))
                 e1 = I.call_qual("spectrum.eigenfre.eigen", x, P_, NSIG, method, None, n1)
                 e2 = I.call_qual("spectrum.eigenfre.eigen", x, P_, NSIG, method, None, n2)
